@@ -276,6 +276,21 @@ CLAIMED = {
     note=TB + "; NOT decided: 'every caller eventually completes' (liveness) and the all-interleavings claim itself, which "
          "is reduced to these per-task obligations + the assumed mutual exclusion of asyncio.Lock (reduction not mechanised); "
          "the per-gateway command serialisation (semaphore / tx lock) is covered by C16/C17 units"),
+ "C17": dict(
+    category="proof",
+    text="SEQUENTIAL PART ONLY. Exceptional postconditions of the real Tridonic _send_raw (write error, device lost while "
+         "waiting, CancelledError at every await): CommunicationError raised, semaphore released, in-flight slot released, "
+         "'disconnected' reported and reconnection scheduled; _shutdown_device wakes every waiter with a failure and leaves no "
+         "slot; disconnect / _reader / connect bookkeeping; _reconnect for limit None or 0..10 and any attempt count: sleeps "
+         "exactly the configured interval, gives up and reports 'failed' exactly when the limit is exceeded, otherwise "
+         "re-opens, resets the count, repeats the handshake write and installs the reader, or schedules another attempt; the "
+         "version -> serial -> connected handshake; LUBA / SCI send under a silent gateway: every wait carries the documented "
+         "timeout, the outcome is TimeoutError or 'no answer', transaction and transmit locks released.",
+    design_ref="DESIGN.md 6 (C17), 3.9, 7",
+    technique="contract-based deductive verification: exceptional postconditions on every exit incl. injected faults and "
+              "cancellation, against assumed asyncio/os contracts; z3",
+    note=TB + "; NOT decided: 'nobody hangs', the fault x schedule quantifier, wall-clock bounds (time-outs are inputs; only "
+         "the value handed to sleep / wait_for is checked), end-to-end transparent retry after reconnection"),
 }
 
 NA_REASON = "check under construction in this round (no obligations built yet); see DESIGN.md section 6"
